@@ -1,0 +1,95 @@
+//go:build verif
+
+/*
+   Copyright The containerd Authors.
+
+   Licensed under the Apache License, Version 2.0 (the "License");
+   you may not use this file except in compliance with the License.
+   You may obtain a copy of the License at
+
+       http://www.apache.org/licenses/LICENSE-2.0
+
+   Unless required by applicable law or agreed to in writing, software
+   distributed under the License is distributed on an "AS IS" BASIS,
+   WITHOUT WARRANTIES OR CONDITIONS OF ANY KIND, either express or implied.
+   See the License for the specific language governing permissions and
+   limitations under the License.
+*/
+
+package store
+
+import (
+	"sort"
+
+	"github.com/containerd/containerd/v2/pkg/reference"
+	"github.com/containerd/stargz-snapshotter/fs/layer"
+	fusefs "github.com/hanwen/go-fuse/v2/fs"
+	digest "github.com/opencontainers/go-digest"
+)
+
+// This file is only built with the "verif" tag. It lets an external verification harness
+// drive the store's FUSE nodes without a kernel mount and read the manager's bookkeeping.
+
+// VerifState is a copy of the LayerManager's bookkeeping.
+type VerifState struct {
+	Layers   map[string][]string          // image ref -> TOC digests of the layers held
+	Uses     map[string]map[string]int    // image ref -> TOC digest -> use count
+	Memo     map[string]map[string]string // image ref -> layer digest -> "" or the recorded resolution error
+	PoolUses map[string]int               // image ref -> use count of the reference pool
+}
+
+// VerifState returns a copy of the bookkeeping.
+func (r *LayerManager) VerifState() VerifState {
+	s := VerifState{
+		Layers:   map[string][]string{},
+		Uses:     map[string]map[string]int{},
+		Memo:     map[string]map[string]string{},
+		PoolUses: map[string]int{},
+	}
+	r.mu.Lock()
+	for ref, m := range r.layer {
+		for d := range m {
+			s.Layers[ref] = append(s.Layers[ref], d)
+		}
+		sort.Strings(s.Layers[ref])
+	}
+	for ref, m := range r.refcounter {
+		s.Uses[ref] = map[string]int{}
+		for d, n := range m {
+			s.Uses[ref][d] = n
+		}
+	}
+	for ref, m := range r.resolveLayerCache {
+		s.Memo[ref] = map[string]string{}
+		for d, err := range m {
+			if err != nil {
+				s.Memo[ref][d] = err.Error()
+			} else {
+				s.Memo[ref][d] = ""
+			}
+		}
+	}
+	r.mu.Unlock()
+	r.refPool.mu.Lock()
+	for ref, rl := range r.refPool.refcounter {
+		s.PoolUses[ref] = rl.count
+	}
+	r.refPool.mu.Unlock()
+	return s
+}
+
+// VerifLayer returns the layer object held for (ref, TOC digest), or nil.
+func (r *LayerManager) VerifLayer(refspec reference.Spec, tocDigest digest.Digest) layer.Layer {
+	return r.getCachedLayer(refspec, tocDigest)
+}
+
+// VerifRootNode returns the root node that Mount would serve.
+func VerifRootNode(layerManager *LayerManager) fusefs.InodeEmbedder {
+	return &rootnode{
+		fs: &fs{
+			layerManager: layerManager,
+			nodeMap:      new(idMap),
+			layerMap:     new(idMap),
+		},
+	}
+}
